@@ -34,6 +34,19 @@ let morph_of s = match String.split_on_char ':' s with
   | _ -> failwith "bad morph"
 let morphl_of s = List.map morph_of (split '/' s)
 
+let op_of s = match String.split_on_char ':' s with
+  | ["A"; p] -> Append (pstr_of_string p)
+  | ["I"; i; p] -> Insert (z_of_int (int_of_string i), pstr_of_string p)
+  | ["R"; p] -> Remove (pstr_of_string p)
+  | ["D"; i] -> DelItem (z_of_int (int_of_string i))
+  | ["P"; p; q] -> Replace (pstr_of_string p, pstr_of_string q)
+  | ["C"; p; q] -> Contract (pstr_of_string p, pstr_of_string q)
+  | ["E"; n] -> Expand (nat_of_int (int_of_string n))
+  | ["S"] -> Sort
+  | ["Q"] -> Query
+  | _ -> failwith ("bad op " ^ s)
+let out_str = function Done -> "ok" | IndexError -> "IndexError" | ValueErr -> "ValueError" | Answer l -> "ans=" ^ String.concat "," (List.map string_of_pstr l)
+
 let handle (toks : string list) : string =
   match toks with
   | ["sign"; p; q] -> res_str gi_str (sign_code (pstr_of_string p) (pstr_of_string q))
@@ -74,6 +87,14 @@ let handle (toks : string list) : string =
       let a = member_strs (nat_of_int (int_of_string n)) (List.map pstr_of_string (split ',' gens)) (List.map pstr_of_string (split ',' xs)) in
       Printf.sprintf "in=%s eq=%s sel=%s" (bool_str a.m_in) (bool_str a.m_eq) (String.concat "," (List.map string_of_pstr a.m_sel))
   | ["space"; n; gens] -> strs (space_strs (nat_of_int (int_of_string n)) (List.map pstr_of_string (split ',' gens)))
+  | "collection" :: fixed :: init :: ops ->
+      (* replays the history step by step so that the state after every step is printed *)
+      let fx = (fixed = "1") in
+      let s0 = mk (List.map pstr_of_string (split ',' init)) in
+      let (_, acc) = List.fold_left (fun (s, acc) o ->
+          let (s', outs) = run fx s [op_of o] in
+          (s', (String.concat "," (List.map string_of_pstr s'.gens) ^ "|" ^ String.concat "" (List.map out_str outs)) :: acc)) (s0, []) ops in
+      String.concat ";" ((String.concat "," (List.map string_of_pstr s0.gens)) :: List.rev acc)
   | _ -> "ERR unknown request"
 
 let () =
